@@ -27,7 +27,8 @@ RULE = ('cases: pupils 1..6 x 1..6 (even/odd/non-square, off-centre support, 1..
         'alpha per axis in [0.02,0.35] (scalar or per-axis dx/du), oversample 1..3, output shape None/int/pair, prop_shape <= shape, '
         'random masks (rectangles with holes, single pixels), optional Tilt planes (sub-pixel to beyond the output), and the '
         'image->pupil direction (second propagation of a propagated wavefront); distinct = (direction, pupil shape, offsets, os, '
-        'shape, prop_shape, mask box, tilt class); non-trivial = window clipped / mask / tilt / per-axis sampling / offset field')
+        'shape, prop_shape, mask box, tilt class); non-trivial = window clipped / mask / tilt / per-axis sampling / offset field'
+        ' Extremes stream (5% of quick, 240 cases in search/thorough): every length scaled by 1e-9..1e3, per-axis pixel scales differing by a relative 1e-5..5e-3 only, large (64..100) critically sampled pupils with an odd dimension (oracle only).')
 TRUSTED = ['np.dot(E1.dot(f), E2), np.exp, np.outer, np.fix, np.broadcast_to as modelled in Model/Fourier.lean and Model/Propagate.lean',
            'lentil.fourier.dft2 = Model dft2 (checked by C01); lentil.field.insert = Model insertArr (checked by C06)']
 UNPROVEN = ['lentil.boundary(mask) = bounding rows/cols of the support: parameter of the theorems, differential only',
@@ -40,7 +41,7 @@ WL, Z = 5e-7, 8.0
 def _dy(rng, lo, hi, q=8):
     return float(rng.integers(int(lo * q), int(hi * q) + 1)) / q
 
-def _pupil(rng, kmax=6):
+def _pupil(rng, kmax=6, wl=None):
     m, n = pick_shape(rng, kmax, allow_one=True)
     if m * n <= 2 and rng.integers(0, 4): m, n = pick_shape(rng, kmax, allow_one=False)
     t = rng.integers(0, 6)
@@ -50,7 +51,7 @@ def _pupil(rng, kmax=6):
     if t in (2, 3) and n > 2: amp[:, -1] = 0
     if t == 4 and m > 3 and n > 3: amp[:2, :] = 0; amp[:, :1] = 0
     if not amp.any(): amp[rng.integers(0, m), rng.integers(0, n)] = 1.0
-    opd = rng.integers(-4, 5, (m, n)) * (WL / 16)
+    opd = rng.integers(-4, 5, (m, n)) * ((WL if wl is None else wl) / 16)
     nseg = 1
     seg = None
     if m * n >= 4 and rng.integers(0, 3) == 0:
@@ -127,43 +128,81 @@ def _fix_tilts(stage):
     Zs = stage.get('z', Z)
     stage['tilt'] = [[t[0] * du[0] / (Zs * os_), -t[1] * du[1] / (Zs * os_)] for t in stage['tilt_px']]
 
-def generate(rng, tier):
-    n = {'quick': 240, 'thorough': 3000, 'search': 400}[tier]
+SCALES = [1e-9, 1e-6, 1e-3, 1.0, 1e3]
+
+def _case(rng, tier, k, scale=1.0, near_equal=False):
+    """one case; `scale` multiplies every length (pixel scales, wavelength, focal length, OPD): nothing observable may
+    change; `near_equal`: per-axis pixel scales that differ by a relative 1e-5 .. 5e-3 only"""
+    wl = float(rng.choice([5e-7, 4.25e-7, 6.5e-7, 1.1e-6])) * scale; z = float(rng.choice([8.0, 2.5, 20.0, 0.75])) * scale
+    p = _pupil(rng, 6 if tier != 'thorough' else 8, wl=wl)
+    eps = lambda: float(rng.choice([-1, 1]) * 10 ** rng.uniform(-5, -2.3))
+    if rng.integers(0, 2): dx = [scale / 64, scale / 64]; scalar_dx = True
+    else: dx = [float(rng.choice([1 / 64, 1 / 32, 3 / 128])) * scale, float(rng.choice([1 / 64, 1 / 32, 3 / 128])) * scale]; scalar_dx = dx[0] == dx[1]
+    if near_equal and rng.integers(0, 2): dx = [dx[0], dx[0] * (1 + eps())]; scalar_dx = False
+    st = _stage(rng, p['shape'], dx, tier, wl=wl, z=z)
+    if near_equal:
+        a0 = st['du'][0] * dx[0]          # keep alpha_r, make the column pitch almost the row pitch
+        st['du'] = [st['du'][0], st['du'][0] * (1 + eps())]; st['scalar_du'] = False
+    _fix_tilts(st)
+    c = {'kind': 'dft', 'pupil': p, 'dx': dx, 'scalar_dx': bool(scalar_dx), 'wl': wl, 'z': z, 'stages': [st]}
+    if scale != 1.0: c['scale'] = scale
+    if near_equal: c['near_equal'] = True
+    if p['seg'] is not None and rng.integers(0, 2):
+        # per-segment tilts: ramps in the OPD of each segment, extracted by fit_tilt -> fields with different shifts
+        S = _sh2(st, p['shape']); S = [S[0] * st['os'], S[1] * st['os']]
+        m, n = p['shape']
+        lab = np.array(p['seg']).reshape(m, n)
+        r = np.arange(m)[:, None] - m // 2; cc = np.arange(n)[None, :] - n // 2
+        opd = np.array(p['opd']).reshape(m, n)
+        for kk in range(1, int(lab.max()) + 1):
+            px = [float(rng.uniform(-0.45, 0.45) * S[0]), float(rng.uniform(-0.45, 0.45) * S[1])]
+            thx, thy = px[0] * st['du'][0] / (z * st['os']), -px[1] * st['du'][1] / (z * st['os'])
+            opd = opd + (lab == kk) * (thx * r * dx[0] - thy * cc * dx[1])
+        p['opd'] = [float(x) for x in opd.ravel()]
+        c['fit_tilt'] = True
+    if k % 5 == 4:
+        # image -> pupil: propagate the image-plane wavefront of stage 0 again
+        st0 = c['stages'][0]
+        st0['mask'] = None
+        sh = p['shape'] if st0['shape'] is None else ([st0['shape']] * 2 if isinstance(st0['shape'], int) else st0['shape'])
+        in_shape = [sh[0] * st0['os'], sh[1] * st0['os']]
+        if max(in_shape) <= 10:
+            dx1 = [st0['du'][0] / st0['os'], st0['du'][1] / st0['os']]
+            st1 = _stage(rng, in_shape, dx1, tier, allow_tilt=False, wl=wl, z=z)
+            if st1['shape'] is None and max(in_shape) * st1['os'] > 14: st1['shape'] = [5, 6]; st1['mask'] = None; st1['prop_shape'] = None
+            _fix_tilts(st1)
+            c['stages'].append(st1)
+    return c
+
+def _critical(rng, lo=64, hi=100):
+    """large pupil filling its array, at least one ODD dimension, critically sampled (alpha = 1/n per axis), output = input
+    shape, no tilt/mask: the regime where a DFT could be swapped for an FFT — the optical axis must stay at floor(n/2).
+    Too large for the interpreted model: checked by the oracle only (`nomodel`)."""
+    m, n = int(rng.integers(lo, hi)), int(rng.integers(lo, hi))
+    if m % 2 == 0 and n % 2 == 0: m += 1
+    wl = float(rng.choice([5e-7, 6.5e-7])); z = float(rng.choice([8.0, 2.5]))
+    amp = rng.integers(1, 4, (m, n)) / 2.0
+    opd = rng.integers(-4, 5, (m, n)) * (wl / 16)
+    dx = [1 / 64, 1 / 64]
+    du = [wl * z / (m * dx[0]), wl * z / (n * dx[1])]
+    st = {'os': 1, 'shape': None, 'prop_shape': None, 'du': du, 'scalar_du': False, 'mask': None, 'tilt_px': [], 'tilt': [], 'z': z}
+    return {'kind': 'dft', 'nomodel': True, 'critical': True, 'wl': wl, 'z': z, 'dx': dx, 'scalar_dx': True, 'stages': [st],
+            'pupil': {'shape': [m, n], 'amp': [float(x) for x in amp.ravel()], 'opd': [float(x) for x in opd.ravel()], 'seg': None}}
+
+def _extremes(rng, tier, n):
+    """extremes stream: tiny/huge physical scales, near-equal per-axis pixel scales, large critically sampled transforms"""
     out = []
     for k in range(n):
-        p = _pupil(rng, 6 if tier != 'thorough' else 8)
-        if rng.integers(0, 2): dx = [1 / 64, 1 / 64]; scalar_dx = True
-        else: dx = [float(rng.choice([1 / 64, 1 / 32, 3 / 128])), float(rng.choice([1 / 64, 1 / 32, 3 / 128]))]; scalar_dx = dx[0] == dx[1]
-        wl = float(rng.choice([5e-7, 4.25e-7, 6.5e-7, 1.1e-6])); z = float(rng.choice([8.0, 2.5, 20.0, 0.75]))
-        st = _stage(rng, p['shape'], dx, tier, wl=wl, z=z)
-        _fix_tilts(st)
-        c = {'kind': 'dft', 'pupil': p, 'dx': dx, 'scalar_dx': bool(scalar_dx), 'wl': wl, 'z': z, 'stages': [st]}
-        if p['seg'] is not None and rng.integers(0, 2):
-            # per-segment tilts: ramps in the OPD of each segment, extracted by fit_tilt -> fields with different shifts
-            S = _sh2(st, p['shape']); S = [S[0] * st['os'], S[1] * st['os']]
-            m, n = p['shape']
-            lab = np.array(p['seg']).reshape(m, n)
-            r = np.arange(m)[:, None] - m // 2; cc = np.arange(n)[None, :] - n // 2
-            opd = np.array(p['opd']).reshape(m, n)
-            for k in range(1, int(lab.max()) + 1):
-                px = [float(rng.uniform(-0.45, 0.45) * S[0]), float(rng.uniform(-0.45, 0.45) * S[1])]
-                thx, thy = px[0] * st['du'][0] / (z * st['os']), -px[1] * st['du'][1] / (z * st['os'])
-                opd = opd + (lab == k) * (thx * r * dx[0] - thy * cc * dx[1])
-            p['opd'] = [float(x) for x in opd.ravel()]
-            c['fit_tilt'] = True
-        if k % 5 == 4:
-            # image -> pupil: propagate the image-plane wavefront of stage 0 again
-            st0 = c['stages'][0]
-            st0['mask'] = None
-            sh = p['shape'] if st0['shape'] is None else ([st0['shape']] * 2 if isinstance(st0['shape'], int) else st0['shape'])
-            in_shape = [sh[0] * st0['os'], sh[1] * st0['os']]
-            if max(in_shape) <= 10:
-                dx1 = [st0['du'][0] / st0['os'], st0['du'][1] / st0['os']]
-                st1 = _stage(rng, in_shape, dx1, tier, allow_tilt=False, wl=wl, z=z)
-                if st1['shape'] is None and max(in_shape) * st1['os'] > 14: st1['shape'] = [5, 6]; st1['mask'] = None; st1['prop_shape'] = None
-                _fix_tilts(st1)
-                c['stages'].append(st1)
-        out.append(c)
+        t = k % 12
+        if t == 11: out.append(_critical(rng, 64, 100 if tier != 'quick' else 72))
+        elif t % 2 == 0: out.append(_case(rng, 'quick', k, scale=float(rng.choice(SCALES)), near_equal=bool(rng.integers(0, 2))))
+        else: out.append(_case(rng, 'quick', k, scale=1e-4 if rng.integers(0, 2) else 1.0, near_equal=True))
+    return out
+
+def generate(rng, tier):
+    n = {'quick': 240, 'thorough': 3000, 'search': 300}[tier]
+    out = [_case(rng, tier, k) for k in range(n)]
+    out += _extremes(rng, tier, {'quick': 12, 'thorough': 240, 'search': 240}[tier])
     return out
 
 # ------------------------------------------------------------------------------------------ implementation
@@ -286,6 +325,7 @@ def _bits_field(f):
     return {'shape': f['shape'], 'off': f['off'], 're': vlib.fl(f['re']), 'im': vlib.fl(f['im']), 'fix': f['fix'], 'sub': vlib.fl(f['sub'])}
 
 def requests(c, io):
+    if c.get('nomodel'): return []
     st = c['stages'][-1]
     inp = io['in']
     sh = _sh2(st, inp['shape'])
@@ -301,6 +341,7 @@ def _tol(io):
     return 1e-9 * (1.0 + float(np.sum(np.abs(np.array(io['in']['canvas']['re']) + 1j * np.array(io['in']['canvas']['im'])))))
 
 def compare(c, io, mo):
+    if c.get('nomodel'): return None
     m = mo[0]
     if 'exc' in io: return f"implementation raised {io['exc']}: {io.get('msg')} (model has no refusal here)"
     if not m.get('ok'): return f"model refused: {m.get('err')}"
@@ -419,7 +460,7 @@ def oracle(c, io):
 def signature(c):
     st = c['stages'][-1]
     tl = 'none' if not st['tilt_px'] else ('sub' if all(abs(v) < 1 for t in st['tilt_px'] for v in t) else 'px')
-    return (f"{len(c['stages'])} {c['pupil']['shape']} seg={c['pupil']['seg'] is not None} amp0={[i for i, a in enumerate(c['pupil']['amp']) if a == 0][:6]} "
+    return (f"sc={c.get('scale')} ne={c.get('near_equal')} {len(c['stages'])} {c['pupil']['shape']} seg={c['pupil']['seg'] is not None} amp0={[i for i, a in enumerate(c['pupil']['amp']) if a == 0][:6]} "
             f"os={st['os']} shape={st['shape']} prop={st['prop_shape']} mask={_mask_box(st)} tilt={tl} "
             f"wl={c.get('wl', WL):.3g} z={c.get('z', Z):g} fit={bool(c.get('fit_tilt'))} dx={'s' if c['scalar_dx'] else 'p'} du={'iso' if st['du'][0] == st['du'][1] else 'aniso'}")
 
@@ -438,6 +479,9 @@ def tags(c):
     if st['prop_shape'] is not None: t.append('prop_shape')
     if st['tilt_px']: t.append('tilt')
     if c.get('fit_tilt'): t.append('per-field-tilt')
+    if c.get('scale'): t.append(f"scale={c['scale']:g}")
+    if c.get('near_equal'): t.append('near-equal-per-axis')
+    if c.get('critical'): t.append('critical-large-odd')
     t.append(f"wl={c.get('wl', WL):.3g}"); t.append(f"z={c.get('z', Z):g}")
     if st['du'][0] != st['du'][1]: t.append('du:per-axis')
     if c['dx'][0] != c['dx'][1]: t.append('dx:per-axis')
